@@ -71,8 +71,9 @@ def prefixLt (r s : Rec) : Bool := lexLt r.key s.key
 def suffixLt (r s : Rec) : Bool := lexLt r.key.reverse s.key.reverse
 /-- `ContextOrder`. -/
 def contextLt (r s : Rec) : Bool := lexLt (contextKey r.key) (contextKey s.key)
-/-- Integer order on the first key word (e.g. `CompareUInt64` of sort_test.cc). -/
-def intLt (r s : Rec) : Bool := decide (r.key.headD 0 < s.key.headD 0)
+/-- Integer order (e.g. `CompareUInt64` of sort_test.cc): the key is the one word `[n]`, compared
+as an unsigned integer — i.e. `PrefixOrder` on a one-word key (`intLt_singleton`). -/
+def intLt (r s : Rec) : Bool := lexLt r.key s.key
 /-- A total order on whole records: key words first, then the payload. -/
 def fullLt (r s : Rec) : Bool := lexLt (r.key ++ [r.payload]) (s.key ++ [s.payload])
 
